@@ -5,7 +5,7 @@
 From Coq Require Import ZArith List Bool String PeanoNat Permutation Sorted Reals.
 From FF Require Import Model.B64 Model.Pulse Spec.PulseSpec Model.Tie.C17
   Proofs.PulseBase Proofs.PulseJoin Proofs.PulseCanon Proofs.PulseEq Proofs.PulseMisc Proofs.B64 Proofs.PulseInst
-  Proofs.PulseTime Proofs.PulseCopy.
+  Proofs.PulseTime Proofs.PulseCopy Proofs.PulseHam.
 (* the observables of the correspondence check are rebuilt together with the model *)
 From FF Require Corr.PulseObs.
 Import ListNotations.
@@ -24,21 +24,17 @@ Theorem C17_parse_sorted_paired : forall noise n H ops ids cfs,
 Proof. exact parse_sorted_paired. Qed.
 Print Assumptions C17_parse_sorted_paired.
 
-(* Default identifiers.  Full statement: without identifiers the operators are named A_0, A_1, ...
-   (B_i for noise), pairwise distinct, for every number of operators. *)
-Definition C17_default_ids_full : Prop := forall noise H, all_absent H = true ->
-  fill_ids noise H = map (default_id noise) (seq 0 (length H)) /\ NoDup (fill_ids noise H).
-(* proved for up to 100 operators ... *)
-Theorem C17_default_ids_partial : forall noise H, all_absent H = true -> length H <= 100 ->
+(* Default identifiers: without identifiers the operators are named A_0, A_1, ... (B_i for noise), pairwise
+   distinct, for every number of operators. *)
+Theorem C17_default_ids : forall noise H, all_absent H = true ->
   fill_ids noise H = map (default_id noise) (seq 0 (length H)) /\ NoDup (fill_ids noise H).
 Proof. exact default_ids. Qed.
-Print Assumptions C17_default_ids_partial.
-(* ... and false beyond: with 101 operators the constructor succeeds and stores a duplicate identifier
-   (np.fromiter(.., dtype='<U4') truncates 'A_100' to 'A_10').  A finding about /repo. *)
-Theorem C17_default_ids_refuted :
-  exists ops ids cfs, parse_hamiltonian false 0 (many_absent 101) = Ok (ops, ids, cfs) /\ ~ NoDup ids.
-Proof. exact default_ids_refuted. Qed.
-Print Assumptions C17_default_ids_refuted.
+Print Assumptions C17_default_ids.
+(* Before fix 313e828 (np.fromiter(.., dtype='<U4')) the constructor stored a duplicate identifier for 101
+   operators: 'A_100' became 'A_10'. *)
+Theorem C17_default_ids_prefix_refuted :
+  exists ops ids cfs, parse_hamiltonian_prefix false 0 (many_absent 101) = Ok (ops, ids, cfs) /\ ~ NoDup ids.
+Proof. exact default_ids_prefix_refuted. Qed.
 (* the defaults filled into a list with some identifiers never collide with each other *)
 Theorem C17_default_id_injective : forall noise i j, default_id noise i = default_id noise j -> i = j.
 Proof. exact default_id_inj. Qed.
@@ -70,7 +66,8 @@ Print Assumptions C17_slice_in_range.
 
 (* ---------------------------------------------------------------- merging of equal segments *)
 (* The arrays returned by _join_equal_segments, read column by column, are the canonical segment list:
-   every run of consecutive segments with equal control AND noise coefficients merged into one. *)
+   zero-duration segments dropped, then every run of consecutive segments with equal control AND noise
+   coefficients merged into one. *)
 Theorem C17_join_canon : forall p,
   Forall (fun r => length r = length (dt p)) (c_coeffs p) ->
   Forall (fun r => length r = length (dt p)) (n_coeffs p) -> 1 <= length (dt p) ->
@@ -78,9 +75,14 @@ Theorem C17_join_canon : forall p,
 Proof. exact join64_canon. Qed.
 Print Assumptions C17_join_canon.
 Theorem C17_canon_no_adjacent_equal : forall p, no_adjacent_equal (canon fadd64 p).
-Proof. exact (fun p => merge_no_adjacent fadd64 [] (segments p)). Qed.
-Theorem C17_canon_columns : forall p, map fst (canon fadd64 p) = compress (map fst (segments p)).
-Proof. exact (fun p => merge_compress fadd64 [] (segments p)). Qed.
+Proof. exact (fun p => merge_no_adjacent fadd64 [] (effective_segments p)). Qed.
+Theorem C17_canon_columns : forall p, map fst (canon fadd64 p) = compress (map fst (effective_segments p)).
+Proof. exact (fun p => merge_compress fadd64 [] (effective_segments p)). Qed.
+(* the effective segments: zero-duration segments removed (unless all or none are), which does not change
+   the pulse as a function of time *)
+Theorem C17_effective_segments_same_time_function : forall p t, (0 <= t)%R ->
+  at_time (effective_segments p) t = at_time (segments p) t.
+Proof. exact at_time_effective. Qed.
 Theorem C17_canon_idempotent : forall segs, merge_runs fadd64 [] (merge_runs fadd64 [] segs) = merge_runs fadd64 [] segs.
 Proof. exact (merge_idempotent fadd64). Qed.
 (* with exact addition of the durations the merged pulse is the same function of time *)
@@ -130,6 +132,17 @@ Example C17_eq_hypotheses_satisfiable :
   denot64 split_pulse = denot64 merged_pulse.
 Proof. exact eq_merged_example. Qed.
 
+(* Equal pulses have equal results: the merged pulses have the same control Hamiltonian in every segment
+   (sum over the operators, whatever their stored order), the same noise operators / sensitivities under every
+   identifier, the same merged durations and basis -- all that propagators and filter functions depend on. *)
+Theorem C17_eq_implies_equal_results : forall A B, wf A -> wf B -> sep64 A B -> eq64 A B = true ->
+  (forall g a b, ham_entry (c_opers A) (jcc64 A) g a b = ham_entry (c_opers B) (jcc64 B) g a b) /\
+  jdt64 A = jdt64 B /\ basis A = basis B /\
+  sorted_view (n_opers A) (n_ids A) (jnc64 A) = sorted_view (n_opers B) (n_ids B) (jnc64 B) /\
+  length (c_opers A) = length (c_opers B).
+Proof. exact eq64_same_hamiltonian. Qed.
+Print Assumptions C17_eq_implies_equal_results.
+
 (* Without the separation hypothesis the laws fail (np.allclose is asymmetric in its arguments):
    documented scope of the tolerance, demonstrated on the implementation by the plugin. *)
 Theorem C17_eq_sym_refuted_at_edge : exists A B, wf A /\ wf B /\ eq64 A B = true /\ eq64 B A = false.
@@ -155,6 +168,11 @@ Theorem C17_eq_same_operator_and_coefficients : forall A B, wf A -> wf B -> eq64
     (In (o, i, r) (terms (c_opers A) (c_ids A) (jcc64 A)) -> In (o', i, r') (terms (c_opers B) (c_ids B) (jcc64 B)) -> o = o' /\ r = r') /\
     (In (o, i, r) (terms (n_opers A) (n_ids A) (jnc64 A)) -> In (o', i, r') (terms (n_opers B) (n_ids B) (jnc64 B)) -> o = o' /\ r = r').
 Proof. exact (eq_same_operator_and_coefficients fadd64 close_dt bclose). Qed.
+(* one changed coefficient (control or noise), pulses without zero-duration or repeated segments *)
+Theorem C17_eq_detects_coefficient : forall A B, wf A -> wf B -> unmerged A -> unmerged B ->
+  c_ids A = c_ids B -> n_ids A = n_ids B ->
+  c_coeffs A <> c_coeffs B \/ n_coeffs A <> n_coeffs B -> eq64 A B = false.
+Proof. exact (eq_detects_coefficient fadd64 close_dt bclose). Qed.
 Theorem C17_eq_detects_duration : forall A B, wf A -> wf B ->
   ~ Forall2 (fun a b => close_dt (length (basis A)) a b = true) (jdt64 A) (jdt64 B) -> eq64 A B = false.
 Proof. exact (eq_detects_duration fadd64 close_dt bclose). Qed.
@@ -162,16 +180,22 @@ Theorem C17_eq_detects_basis : forall A B, basis_eq bclose (basis A) (basis B) =
 Proof. exact (eq_detects_basis fadd64 close_dt bclose). Qed.
 Print Assumptions C17_eq_same_operator_and_coefficients.
 
-(* Full statement of the completeness direction: pulses that are the same function of time compare equal.
-   Refuted by a zero-duration segment between two equal segments (a finding about /repo). *)
+(* Zero-duration segments.  The pair [a for T/2, b for 0, a for T/2] / [a for T]: the same function of time; the
+   pulses compare equal since fix ac70929, and compared unequal before. *)
+Theorem C17_eq_zero_duration_example :
+  wf zd_split /\ wf zd_merged /\ (forall t, at_time (segments zd_split) t = at_time (segments zd_merged) t) /\
+  eq64 zd_split zd_merged = true /\ eq64 zd_merged zd_split = true.
+Proof. exact eq_zero_duration_example. Qed.
+Theorem C17_eq_time_denotation_prefix_refuted :
+  exists A B, wf A /\ wf B /\ (forall t, at_time (segments A) t = at_time (segments B) t) /\
+              eq64_prefix A B = false /\ eq64_prefix B A = false.
+Proof. exact eq_time_denotation_prefix_refuted. Qed.
+Print Assumptions C17_eq_zero_duration_example.
+(* Completeness in general (same function of time => equal) is not proved: it needs the uniqueness of the
+   canonical form among all segmentations; kept as a definition. *)
 Definition C17_eq_complete_full : Prop := forall A B, wf A -> wf B ->
   c_opers A = c_opers B -> c_ids A = c_ids B -> n_opers A = n_opers B -> n_ids A = n_ids B -> basis A = basis B ->
-  (forall t, at_time (segments A) t = at_time (segments B) t) -> eq64 A B = true.
-Theorem C17_eq_time_denotation_refuted :
-  exists A B, wf A /\ wf B /\ (forall t, at_time (segments A) t = at_time (segments B) t) /\
-              eq64 A B = false /\ eq64 B A = false.
-Proof. exact eq_time_denotation_refuted. Qed.
-Print Assumptions C17_eq_time_denotation_refuted.
+  (forall t, at_time (segments A) t = at_time (segments B) t) -> sep64 A B -> eq64 A B = true.
 
 (* ---------------------------------------------------------------- copies *)
 (* A deep copy lives in freshly allocated cells only: it is structurally equal to the original, no cell
@@ -187,12 +211,11 @@ Theorem C17_deepcopy_disjoint : forall fuel h o h' o',
   (forall l c, In l (reach_obj fuel h o) -> obj_equiv fuel h' o' (hwrite h' l c) o').
 Proof. exact deepcopy_disjoint. Qed.
 Print Assumptions C17_deepcopy_disjoint.
-(* Full statement: this holds for every object.  It does not: NumPy deep-copies an ndarray-subclass
-   instance by copying the data and re-binding its attributes (Basis.__array_finalize__), so the deep
-   copy of a pulse and the original share the list basis.labels (a finding about /repo). *)
-Definition C17_deepcopy_disjoint_full : Prop := forall fuel h o h' o',
-  deepcopy_obj fuel h o = (h', o') -> forall l, In l (reach_obj fuel h o) -> ~ In l (reach_obj fuel h' o').
-Theorem C17_deepcopy_shares_subclass_attributes :
+(* obj_ok excludes ndarray-subclass cells with re-bound attributes: NumPy deep-copies such an instance by
+   copying the data and calling __array_finalize__(new, old).  Before fix 9f6ee83 Basis.__array_finalize__ re-bound
+   the labels list, so a deep copy of a pulse shared basis.labels with the original (witness below); now the
+   labels are copied with the data and the objects of a pulse satisfy obj_ok. *)
+Theorem C17_deepcopy_prefix_refuted :
   exists h' o', deepcopy_obj 2 basis_heap basis_obj = (h', o') /\
                 exists l, In l (reach_obj 2 basis_heap basis_obj) /\ In l (reach_obj 2 h' o').
 Proof. exact deepcopy_shares_subclass_attributes. Qed.
